@@ -154,9 +154,15 @@ bcast_scenario(int idx) {
 			sc_fail("cb-duplicated", "thread %d ran the callback %d times", i, cbs);
 		if (targeted[i] && !running[i] && 0 != cbs)
 			sc_fail("cb-on-stopped", "thread %d is not running but the callback ran for it", i);
-		if (targeted[i] && running[i] && !v->faults && 1 != cbs)
+		/* A call that returned an error delivered nothing (checked below) and is not held to
+		 * "reaches every running thread": the caller was told the broadcast failed. */
+		if (targeted[i] && running[i] && !v->faults && 0 == call_rc && 1 != cbs)
 			sc_fail("cb-missing", "running thread %d was targeted but ran the callback %d time(s)", i, cbs);
 	}
+	if (0 != call_rc && 0 != total_cb)
+		sc_fail("error-but-delivered", "the call returned %d but %d callback(s) ran", call_rc, total_cb);
+	if (0 == v->api && !v->faults && nrun_target > 0 && 0 != call_rc)
+		sc_fail("spurious-error", "tpt_msg_bsend_ex returned %d although %d targeted threads are running and no send failed", call_rc, nrun_target);
 	/* every callback ran on the OS thread of the pool thread it names, and tpt_get_current() agreed */
 	for (i = 0; i < tpc_nev; i ++) {
 		if (E_CB_BEGIN != tpc_ev[i].type || 42 != tpc_ev[i].a)
